@@ -682,6 +682,83 @@ func c18ThirdPartyStore(c *Ctx) {
 // every filter field of fileadapter.Filter (P, G, G1 .. G5): a model that declares the six rule
 // types p, g, g2 .. g5; a filter that constrains exactly ONE of them must restrict that type to the matching
 // rules and load every rule of the other types.  Implementation-only (Filter.v models p/g/g2).
+// (a) a store that cannot be read to its end (a line beyond the scanner's 64 KiB limit in the
+// middle): a full load refuses it, so a filtered / incremental load must not report success with
+// only the matching rules in FRONT of that line -- exactly the matching rules, or an error;
+// (b) the SyncedEnforcer wrappers of the filtered loads do what the plain enforcer's do.
+func c18Unreadable(c *Ctx, dir string) {
+	mtext := machRBAC.Text
+	long := "p, big, " + strings.Repeat("x", 70000) + ", read"
+	for pos := 0; pos <= 3; pos++ {
+		lines := []string{"p, alice, data1, read", "p, bob, data2, write", "p, alice, data2, read"}
+		var all []string
+		all = append(all, lines[:pos]...)
+		all = append(all, long)
+		all = append(all, lines[pos:]...)
+		path := filepath.Join(dir, fmt.Sprintf("unreadable%d.csv", pos))
+		_ = os.WriteFile(path, []byte(strings.Join(all, "\n")+"\n"), 0o644)
+		for _, inc := range []bool{false, true} {
+			mm, _ := model.NewModelFromString(mtext)
+			e, _ := casbin.NewEnforcer(mm)
+			e.SetAdapter(fileadapter.NewFilteredAdapter(path))
+			var err error
+			f := &fileadapter.Filter{P: []string{"alice"}}
+			if inc {
+				err = e.LoadIncrementalFilteredPolicy(f)
+			} else {
+				err = e.LoadFilteredPolicy(f)
+			}
+			got, _ := e.GetPolicy()
+			want := [][]string{{"alice", "data1", "read"}, {"alice", "data2", "read"}}
+			if err == nil && rulesKey(got) != rulesKey(want) {
+				c.Direct(fmt.Sprintf("c18.unreadable.%d.%v", pos, inc), "a filtered load of a store with an unreadable (over-long) line reported success but did not load exactly the matching rules", fmt.Sprintf("loaded=%v expected=%v or an error", got, want))
+			}
+			c.Count("unreadable-store")
+		}
+	}
+	// (b)
+	path := filepath.Join(dir, "synced.csv")
+	_ = os.WriteFile(path, []byte("p, alice, data1, read\np, bob, data2, write\np, alice, data2, read\ng, alice, admin\ng, bob, admin\n"), 0o644)
+	type loader interface {
+		LoadFilteredPolicy(filter interface{}) error
+		LoadIncrementalFilteredPolicy(filter interface{}) error
+		GetPolicy() ([][]string, error)
+		GetGroupingPolicy() ([][]string, error)
+	}
+	seqs := [][]*fileadapter.Filter{
+		{{P: []string{"alice"}}, {P: []string{"bob"}}},
+		{{P: []string{"bob"}, G: []string{"alice"}}, {P: []string{"alice"}, G: []string{"bob"}}},
+		{{G: []string{"", "admin"}}, {P: []string{"", "data2"}}},
+	}
+	for si, seq := range seqs {
+		var keys [2]string
+		for vi := 0; vi < 2; vi++ {
+			mm, _ := model.NewModelFromString(mtext)
+			var l loader
+			if vi == 0 {
+				e, _ := casbin.NewEnforcer(mm)
+				e.SetAdapter(fileadapter.NewFilteredAdapter(path))
+				l = e
+			} else {
+				e, _ := casbin.NewSyncedEnforcer(mm)
+				e.SetAdapter(fileadapter.NewFilteredAdapter(path))
+				l = e
+			}
+			_ = l.LoadFilteredPolicy(seq[0])
+			for _, f := range seq[1:] {
+				_ = l.LoadIncrementalFilteredPolicy(f)
+			}
+			p, _ := l.GetPolicy()
+			g, _ := l.GetGroupingPolicy()
+			keys[vi] = rulesKey(p) + "#" + rulesKey(g)
+		}
+		if keys[0] != keys[1] {
+			c.Direct(fmt.Sprintf("c18.synced.%d", si), "LoadFilteredPolicy + LoadIncrementalFilteredPolicy through SyncedEnforcer load other rules than through Enforcer", fmt.Sprintf("enforcer=%s synced=%s", keys[0], keys[1]))
+		}
+		c.Count("synced-filtered-loads")
+	}
+}
+
 func c18AllTypes(c *Ctx, dir string) {
 	// (a role definition cannot be NAMED g1 in a model text: the loader numbers them g, g2, g3, ...;
 	// Filter.G1 therefore never applies to anything)
@@ -916,6 +993,7 @@ func init() {
 		c18Ordering(c, dir)
 		c18ThirdPartyStore(c)
 		c18AllTypes(c, dir)
+		c18Unreadable(c, dir)
 		flat, flat2, dom := c18Flat(), c18Flat2(), c18Dom()
 		n := 0
 		id := func(tag string) string { n++; return fmt.Sprintf("c18.%s.%d", tag, n) }
